@@ -84,16 +84,8 @@ LEVEL_NOTE = "NumPy is the reference; domain limited to parameters in dask's sig
 TECHNIQUE = "runtime monitoring: NumPy differential oracle over generated inputs (empty chunks, NaN, duplicates) and a complete small chunking space"
 
 PENDING = {
-    "unique:nan:ValueError@array/routines.py:_unique_internal":
-        "unique(return_index=True) on data containing NaN raises 'zero-size array to reduction operation minimum' (ar == v never matches NaN)",
-    "unique/counts:nan:values": "unique(return_counts=True): the count of NaN is 0 instead of the number of NaNs",
-    "unique/inverse:nan:values": "unique(return_inverse=True): NaN entries get inverse index 0 instead of the index of NaN",
     "bincount:minlength>0&max(x)>=minlength:lazy-shape":
         "bincount(minlength=m) declares shape (m,) although the computed result is longer when max(x) >= m (values are right)",
-    "histogramdd/hist:weights=int:dtype": "histogramdd/histogram2d with integer weights return int64 where NumPy returns float64",
-    "coarsen:empty-chunk:shape": "coarsen drops zero-length chunks of un-coarsened axes from .chunks but keeps their block keys: blocks shift, elements are lost",
-    "compress:empty-chunk&cond=concrete:ValueError@array/slicing.py:take":
-        "compress / integer-array take along an axis that has more chunks than elements: average_chunk_size == 0 -> range() arg 3 must not be zero",
     "ravel:empty-chunk&nd>1:ValueError@utils.py:__call__":
         "ravel()/reshape(-1) of an n-d array whose first axis has an interior empty chunk: 'cannot reshape array of size 0 into shape (k,)' (reached through unique/argwhere/flatnonzero/nonzero/compress(axis=None))",
     "ravel:zero-length&nd>1:Error@array/reshape.py:reshape_rechunk":
@@ -102,7 +94,6 @@ PENDING = {
         "searchsorted with n-d v that has empty chunks: out.max(axis=0) fails in concatenate3 (could not broadcast input array)",
     "searchsorted:empty-chunk&v-nd>1:shape": "same mechanism, wrong result shape instead of an exception",
     "searchsorted:zero-length&v-nd>1:shape": "searchsorted with n-d zero-size v returns shape (1, 0) instead of v.shape",
-    "unravel_index:zero-length&nd>1:shape": "unravel_index of an n-d zero-size index array returns arrays of shape (0,) instead of indices.shape",
     # one mechanism for the next seven: unify_chunks/blockwise treat an axis of length <= 1 as broadcastable and rechunk it
     # to a single block even when it carries extra empty chunks, e.g. chunks (1, 0) or (0, 0): blocks are duplicated / missing
     "argwhere:short-axis-split:mismatch-or-error": "argwhere/nonzero/flatnonzero on a length-1 axis chunked (1, 0): the index is returned twice",
@@ -544,15 +535,18 @@ def _run(case, ctx):
         feat, reduced = _minimal_features(case, fd)
         who, sym = fd["who"], fd["sym"]
         fl = feat.split("&")
-        if "short-axis-split" in fl:
-            # one mechanism (an axis of length <= 1 carrying extra empty chunks is treated as broadcastable), many
-            # symptoms: collapse them
-            who, feat, sym = plan["label"], "short-axis-split", "mismatch-or-error"
-        elif who == "ravel":
+        if who == "ravel":
+            # the exception site names the mechanism (reshape of an n-d input); an empty chunk on a short axis is an
+            # empty chunk like any other here
             if "zero-length" in fl:      # TypeError or IndexError from the same loop over an empty chunk product
                 feat, sym = "zero-length&nd>1", sym.split("@")[0].replace("TypeError", "Error").replace("IndexError", "Error") + "@" + sym.split("@")[-1]
             else:
-                feat = "&".join([f for f in fl if f in DOMAIN] + ["nd>1"])
+                dom = sorted({"empty-chunk" if f == "short-axis-split" else f for f in fl if f in DOMAIN})
+                feat = "&".join(dom + ["nd>1"])
+        elif "short-axis-split" in fl:
+            # one mechanism (an axis of length <= 1 carrying extra empty chunks is treated as broadcastable), many
+            # symptoms: collapse them
+            who, feat, sym = plan["label"], "short-axis-split", "mismatch-or-error"
         elif "zero-length" in fl and "empty-chunk" in fl:
             feat = "&".join(f for f in fl if f != "empty-chunk")     # a zero-size input dominates extra empty chunks
         feat = "&".join(f for f in feat.split("&") if f != "plain") or "any-input"
